@@ -1104,6 +1104,28 @@ fn gen(r: &mut Rng, tier: Tier, out: &mut Out) {
 		emit_stream(out, "read", &b[..cut], std::slice::from_ref(f), std::slice::from_ref(&cfg));
 		emit_stream(out, "oracle-consumed", &b[..cut], std::slice::from_ref(f), std::slice::from_ref(&cfg));
 	}
+	// ---- 4a'. classes without any class-level attribute in streams (seed C17-I was missed): the reader's last operation on such a
+	// file is a plain read (declined class: `attributes_count`; members skipped: a seek), so a reader that reads ahead leaves the
+	// stream past the file. Every position in streams of 2 and 3 files x declined / members skipped / fields off / full.
+	for k in 0..(6 * scale) {
+		let (bare, _) = c17asm::gen_class(r, &c17asm::Opts { bare: true, rich: k % 2 == 0, ..Default::default() });
+		let Some(fb) = c17frame::frame(&bare) else { out.stats.hit("file:bare-not-framed"); continue };
+		if fb.size != bare.len() { continue; }
+		let (b3, f3) = *r.pick(&pool);
+		let (b4, f4) = *r.pick(&pool);
+		let mut declined = Cfg::random(r, &fb); declined.cls = None;
+		for cfg in [declined, member_flags_cfg(r, &fb, false, false), member_flags_cfg(r, &fb, false, true), Cfg::full()] {
+			out.stats.hit("stream:bare-class");
+			let bytes: Vec<u8> = bare.iter().chain(b3.iter()).copied().collect();
+			emit_stream(out, "read", &bytes, &[fb.clone(), f3.clone()], &[cfg.clone(), Cfg::full()]);
+			emit_stream(out, "oracle-consumed", &bytes, &[fb.clone(), f3.clone()], &[cfg.clone(), Cfg::random(r, f3)]);
+			let bytes: Vec<u8> = b3.iter().chain(bare.iter()).chain(b4.iter()).copied().collect();
+			emit_stream(out, "read", &bytes, &[f3.clone(), fb.clone(), f4.clone()], &[Cfg::random(r, f3), cfg.clone(), Cfg::full()]);
+			emit_stream(out, "oracle-consumed", &bytes, &[f3.clone(), fb.clone(), f4.clone()], &[Cfg::full(), cfg.clone(), Cfg::random(r, f4)]);
+			let bytes: Vec<u8> = bare.iter().chain(bare.iter()).copied().collect();
+			emit_stream(out, "read", &bytes, &[fb.clone(), fb.clone()], &[cfg.clone(), cfg.clone()]);
+		}
+	}
 	// ---- 4b. members whose name / descriptor index names nothing: an error for every visitor that gets to see the member,
 	// invisible to one whose class visitor does not ask for fields (methods) or that declines the class
 	let with_members: Vec<&(Vec<u8>, Frame)> = pool.iter().copied().filter(|x| !x.1.fields.is_empty() || !x.1.methods.is_empty()).collect();
